@@ -46,9 +46,9 @@ CHECKS = {
     },
     "C05": {
         "level": "exploration",
-        "rule": "rapid stateful generation of call/new over WebSocket and POST/PUT/DELETE over HTTP on subscribed (cached verdict) and unsubscribed resources with call lists whose entries are prefixes/suffixes of the methods, token events, reaccess events and matching resets at any step; oracle over the boundary log: every call.* request has a governing access answer of that connection granting the method (* or exact list entry) that no trigger invalidated before the decision step; a granted call is not refused; every access/call/auth payload carries the connection's most recent token. Non-trivial = a trigger lies between the access request and a call decided on its cached answer; distinct by script hash",
+        "rule": "rapid stateful generation of call/new over WebSocket and POST/PUT/DELETE over HTTP on subscribed (cached verdict) and unsubscribed resources with call lists whose entries are prefixes/suffixes of the methods, token events, reaccess events and matching resets at any step; oracle over the boundary log: every call.* request has a governing access answer of that connection granting the method (* or exact list entry) that no trigger invalidated before the decision step; a granted call is not refused; every access/call/auth payload carries the connection's most recent token. Methods include names with commas (valid in a method, an entry of no list). Unit part: Access.CanCall against the split oracle for generated lists and methods, including the whole list and runs of its entries as the method. Non-trivial = a trigger lies between the access request and a call decided on its cached answer (sim), a list entry that contains or is contained in the method (unit); distinct by script hash",
         "assumptions": A_SIM,
-        "parts": [sim(300, 5000)],
+        "parts": [sim(300, 5000), unit("C05-cancall", 40000, 400000)],
     },
     "C06": {
         "level": "exploration",
